@@ -47,13 +47,20 @@ def make_case(seed: Any, features: Optional[Dict[str, float]] = None, n_ops: int
         return None
     cfg = dict(config or {})
     cfg.setdefault("convert_to_snake_case", rng.random() < 0.7)
+    # custom scalars: unconfigured (-> Any) or configured with a pydantic-native type only (-> that type)
+    scalar_str = [t["name"] for t in s["types"] if t["kind"] == "scalar" and rng.random() < 0.5]
+    if scalar_str:
+        cfg["scalars"] = {n: {"type": "str"} for n in scalar_str}
     calls = []
     for o in doc["operations"]:
         for k in range(calls_per_op):
             calls.append({"op": o["name"], "seed": f"{seed}:{o['name']}:{k}",
                           "vars": {v["name"]: values.input_value(s, v["type"], rng) for v in o["vars"]}})
     return {"seed": seed, "sdl": sdl, "queries": text, "config": cfg, "calls": calls, "snake": cfg["convert_to_snake_case"],
-            "features": features or {}}
+            "features": features or {}, "scalar_str": scalar_str,
+            # class-IR correspondence only (no package is built from these): also scalars with a parse function
+            "scalars": [({"name": n, "type": "str"} if rng.random() < 0.5 else {"name": n, "type": "datetime.datetime", "parse": ".custom_scalars.parse_" + n.lower()})
+                        for n in scalar_str]}
 
 
 def draw_cases(ctx: Ctx, label: str, n: int, features: Optional[Dict[str, float]] = None, **kw: Any) -> List[Dict[str, Any]]:
@@ -140,7 +147,8 @@ def env_and_ops(case: Dict[str, Any]) -> Tuple[Dict[str, Any], List[Dict[str, An
 
     schema = build_ast_schema(parse(case["sdl"]), assume_valid=True)
     doc = gqlwire.document_to_json(parse(case["queries"]))
-    env = {"schema": gqlwire.schema_to_json(schema), "fragments": doc["fragments"], "scalars": [], "snake": case.get("snake", True)}
+    env = {"schema": gqlwire.schema_to_json(schema), "fragments": doc["fragments"], "snake": case.get("snake", True),
+           "scalars": [{"name": n, "typeName": "str", "parseName": None} for n in case.get("scalar_str", [])]}
     return env, doc["operations"]
 
 
@@ -171,7 +179,7 @@ def assign_trigger(prop: str, triggers: List[str], signature: str) -> Optional[s
 
 
 def strip_case(c: Dict[str, Any]) -> Dict[str, Any]:
-    return {k: c[k] for k in ("sdl", "queries", "config", "calls") if k in c}
+    return {k: c[k] for k in ("sdl", "queries", "config", "calls", "scalar_str", "null_p") if k in c}
 
 
 def judge_c01(case: Dict[str, Any], status: str, r: Any) -> List[Tuple[str, str, Dict[str, Any]]]:
